@@ -62,6 +62,16 @@ var c06Hostile = func() []string {
 		"select upper(x) as x, lower(x) as y where y = 'a'",
 		"select key, int(value) as n where n > n",
 		"select n as n where true",
+		"select lower(a) as b, upper(b) as a, key as a where key ^= 'k'",
+		"select key as a, lower(a) as b, upper(b) as a where key ^= 'k'",
+		"select upper(a) as a, key as a where a = 'K1'",
+		"select key as a, upper(a) as a, lower(a) as a where a != 'x'",
+		"select b + 1 as a, a + 1 as b, 1 as a, 2 as b where a > 0",
+		"select int(value) as n, n + m as m, 1 as m where m > 0 order by m",
+		"select key, a as a where true order by a",
+		"select count(c) as c where true",
+		"select value as g, count(1) as g where true group by g",
+		"select value as g, sum(g) as g where true group by g order by g",
 		"select * where key = 'a' order by key",
 		"select substr(key, 2, 1) where true",
 		"select substr(key, 5, 9), substr(value, 0 - 1, 2), substr(key, 1, 0 - 5) where true",
